@@ -22,7 +22,7 @@ RULE = (
     "distinct by operation sequence."
 )
 ASSUMPTIONS = ["sampler classes are identified by their class name, as the library does"]
-REQUIRED_COUNTERS = {"tables_checked": 80, "rows_attributed": 150, "helper_calls": 40, "restores": 40, "dropped_class_checkpoints": 10,
+REQUIRED_COUNTERS = {"folder_reused_by_other_run": 20, "tables_checked": 80, "rows_attributed": 150, "helper_calls": 40, "restores": 40, "dropped_class_checkpoints": 10,
                      "user_defined_classes": 5, "set_scheduler_ops": 5, "old_format_fixture": 1}
 SHARDS = {"quick": 16, "thorough": 16}
 SHARD_WATCHDOG = {"quick": 1500, "thorough": 10800}
@@ -173,6 +173,31 @@ def run_case(desc, ctx):
             check_table(f"after set_scheduler({names})")
         if len(out["violations"]) > 2:
             break
+    # the same folder (same path, same process) is then used by an unrelated run whose classes get other ids: the helper and
+    # restore must describe the checkpoint that is in the folder now
+    if not out["violations"]:
+        try:
+            kinds2 = [k for k in G.HISTORY_FREE]
+            order = [kinds2[j] for j in rng.permutation(len(kinds2))][: int(rng.integers(2, 4))]
+            cfg2 = dict(cfg, lineup=[G.gen_sampler_desc(rng, k, batch_size=1) for k in order], scheduler="list", seed=cfg["seed"] + 1)
+            with quiet():
+                cal2 = CG.build_calibrator(cfg2, folder=str(folder))
+                with CM.RunMonitor(cal2, snapshots=False) as mon2:
+                    cal2.calibrate(len(order))
+                names2 = PR._get_samplers_names(folder, [int(x) for x in cal2.method_samp])
+            want2 = []
+            for (bidx, smp, pos, cname, ret) in mon2.batches():
+                want2 += [cname] * (0 if ret is None else len(ret))
+            cnt("folder_reused_by_other_run")
+            if list(names2) != want2:
+                out["violations"].append({"msg": f"folder reused by another run (line-up {order}): the plot helper labels its rows {list(names2)[:6]}, they were produced by {want2[:6]}",
+                                          "witness": dict(wit, second_run_lineup=order)})
+            with quiet():
+                rest2 = Calibrator.restore_from_checkpoint(str(folder), model)
+            if dict(rest2.samplers_id_table) != dict(cal2.samplers_id_table):
+                out["violations"].append({"msg": f"folder reused by another run: restored id table {dict(rest2.samplers_id_table)} != the run's {dict(cal2.samplers_id_table)}", "witness": wit})
+        except Exception as e:  # noqa: BLE001
+            out["violations"].append({"msg": f"second run in the same folder raised {type(e).__name__}: {str(e)[:140]}", "witness": wit})
     out["evals"] = 1
     if desc["i"] < 2:
         out["sample"] = {"initial_lineup": wit["initial_lineup"], "ops": ops, "final_table": dict(cal.samplers_id_table), "method_samp": cal.method_samp}
